@@ -235,29 +235,40 @@ def RungSys.promoSchedule (s : RungSys) (ty : HBType) (m : Mode) (hint : Option 
 def rungPos (rungs : List Rung) (level : Nat) : Option Nat :=
   rungs.findIdx? (fun r => r.level == level)
 
+/-- `ignore_data = (resume_from is not None) and (resource <= resume_from)`. -/
+def ignoreOf (resumeFrom : Option Nat) (r : Nat) : Bool :=
+  match resumeFrom with | some f => decide (r ≤ f) | none => false
+
+/-- next milestone above the rung at position `pos` of `_rungs` (decreasing): the level of
+the rung at `pos - 1`, or `max_t` for the top rung. -/
+def nextAbove (rungs : List Rung) (pos maxT : Nat) : Nat :=
+  if pos > 0 then (match rungs[pos - 1]? with | some u => u.level | none => maxT) else maxT
+
+/-- the milestone-reached branch of `PromotionRungSystem.on_task_report`. -/
+def RungSys.promoReached (s : RungSys) (m : Mode) (tid : Nat) (v cost : Rat) (milestone : Nat)
+    (ignore : Bool) : Except Err (RungSys × RepOut) :=
+  match rungPos s.rungs milestone with
+  | none => .ok (s, { continues := false, reached := true, next := none, ignoreData := ignore })
+  | some pos =>
+    match s.rungs[pos]? with
+    | none => .error (.assertion "rung_pos")
+    | some rg =>
+      if rg.contains tid then .error (.assertion "trial_id not in rung") else
+      .ok ({ s with rungs := s.rungs.set pos (rg.add m { tid := tid, val := v, cost := cost }) },
+           { continues := false, reached := true, next := some (nextAbove s.rungs pos s.maxT),
+             ignoreData := ignore })
+
 /-- `PromotionRungSystem.on_task_report`. -/
 def RungSys.promoReport (s : RungSys) (m : Mode) (tid r : Nat) (v : Rat) (cost : Rat := 0) :
     Except Err (RungSys × RepOut) :=
   match alookup tid s.running with
   | none => .error (.keyError "_running")
-  | some (milestone, resumeFrom) =>
-    let ignore := match resumeFrom with | some f => decide (r ≤ f) | none => false
-    if milestone ≤ r then
-      if r ≠ milestone then .error (.assertion "resource > milestone") else
-      match rungPos s.rungs milestone with
-      | none => .ok (s, { continues := false, reached := true, next := none, ignoreData := ignore })
-      | some pos =>
-        match s.rungs[pos]? with
-        | none => .error (.assertion "rung_pos")
-        | some rg =>
-          if rg.contains tid then .error (.assertion "trial_id not in rung") else
-          let rg' := rg.add m { tid := tid, val := v, cost := cost }
-          let nxt := if pos > 0 then (match s.rungs[pos - 1]? with | some u => u.level | none => s.maxT)
-                     else s.maxT
-          .ok ({ s with rungs := s.rungs.set pos rg' },
-               { continues := false, reached := true, next := some nxt, ignoreData := ignore })
+  | some mr =>
+    if mr.1 ≤ r then
+      if r ≠ mr.1 then .error (.assertion "resource > milestone")
+      else s.promoReached m tid v cost mr.1 (ignoreOf mr.2 r)
     else
-      .ok (s, { continues := true, reached := false, next := none, ignoreData := ignore })
+      .ok (s, { continues := true, reached := false, next := none, ignoreData := ignoreOf mr.2 r })
 
 /-- `RUSHStoppingRungSystem.on_task_report`: the decider is applied to the outcome of
 `_task_continues` at the rung that was reached (`rung.level = resource`). -/
